@@ -11,8 +11,6 @@ another way of writing the search) therefore extracts the same facts; a semantic
 the parts of the model that are parameterised by a flag (allocator bookkeeping of del_graph / del_all_graphs) follow the
 change.  A probe that cannot be run at all (class or method gone, unexpected exception) is an ExtractionError.
 """
-import importlib
-
 import networkx as nx
 
 from .common import *
@@ -29,9 +27,7 @@ def _mods():
     try:
         import fim.graph.networkx_property_graph as m1
         import fim.graph.networkx_property_graph_disjoint as m2
-        importlib.reload(m1)
-        importlib.reload(m2)
-        return m1, m2
+        return m1, m2       # no reload: other modules of the process hold these classes (isinstance assertions)
     except Exception as e:  # noqa
         raise ExtractionError("cannot import the in-memory stores: %r" % (e,))
 
